@@ -310,7 +310,17 @@ def unary(ck, F):
         names = [c.callee.split("::")[-1] for c in r["calls"] if not c.callee.endswith("::branch") and "from_residual" not in c.callee]
         negs = [st for bb in r["path"] for st in b.blocks[bb]["stmts"] if st["k"] == "assign" and st["rv"]["k"] == "unop" and st["rv"]["op"] == "Neg"]
         nots = [st for bb in r["path"] for st in b.blocks[bb]["stmts"] if st["k"] == "assign" and st["rv"]["k"] == "unop" and st["rv"]["op"] == "Not"]
-        if r["outcome"] == "Ok":
+        outcome = r["outcome"]
+        if outcome is None and any(c.callee.split("::")[-1] == "map" and "Result" in c.callee for c in r["calls"]):
+            # `value.try_into().map(|n: f64| (-n).into())`: the conversion's Ok value goes through the closure
+            from lib import with_closures
+            for cb in with_closures(F, b)[1:]:
+                names += [c.callee.split("::")[-1] for c in cb.calls()]
+                negs += [st for blk in cb.blocks for st in blk["stmts"] if st["k"] == "assign" and st["rv"]["k"] == "unop" and st["rv"]["op"] == "Neg"]
+                nots += [st for blk in cb.blocks for st in blk["stmts"] if st["k"] == "assign" and st["rv"]["k"] == "unop" and st["rv"]["op"] == "Not"]
+            names = [n for n in names if n != "map"]
+            outcome = "Ok"
+        if outcome == "Ok":
             got.setdefault(opv, set()).add((tuple(n for n in names if n in ("try_from", "to_bool", "from_bool", "from")), bool(negs), bool(nots)))
     ck.require(got.get("Positive") == {((), False, False)}, "C02:OP:unary-plus", "operator semantics", "+x returns x unchanged (any kind)",
                "unary plus does %s" % got.get("Positive"), b.span)
